@@ -239,6 +239,15 @@ Definition just_attrs_visible : Prop :=
     (d = [] -> forall it v, In it (items I b) -> iattr it = Some v -> ireport it <> [] ->
                   In (iname it) (map aname l)).
 
+(* The exact form, for syntaxes that can tell blocks from attributes (native
+   bodies and merges of them; NOT the JSON syntax, whose JustAttributes also
+   refuses array-of-objects bodies): with unique attribute names, a diagnostic
+   is reported iff some visible item is a block. In particular JustAttributes
+   of a remaining body never reports an item that was already consumed. *)
+Definition just_attrs_exact : Prop :=
+  forall b, wf I b -> NoDup (map aname (all_attrs (items I b))) ->
+    (snd (b_just_attrs I b) = [] <-> forall it, In it (items I b) -> iattr it <> None).
+
 Definition items_ok : Prop := forall b, wf I b -> Forall item_ok (items I b).
 
 Record Lawful : Prop := {
@@ -304,4 +313,4 @@ Arguments is_some {A}.
 Arguments Lawful {V B}. Arguments two_step_equiv {V B}. Arguments k_step_equiv {V B}.
 Arguments run_steps {V B}. Arguments content_exactly_once {V B}. Arguments partial_reports {V B}.
 Arguments partial_keeps_rest {V B}. Arguments content_reports_rest {V B}.
-Arguments just_attrs_visible {V B}. Arguments items_ok {V B}.
+Arguments just_attrs_visible {V B}. Arguments items_ok {V B}. Arguments just_attrs_exact {V B}.
